@@ -14,6 +14,8 @@ import (
 	"os"
 	"sort"
 	"strings"
+	"sync"
+	"sync/atomic"
 	"time"
 
 	"github.com/DataDog/datadog-go/v5/statsd"
@@ -21,6 +23,7 @@ import (
 	"go.uber.org/zap"
 
 	"github.com/mimiro-io/datahub/internal/conf"
+	"github.com/mimiro-io/datahub/internal/verifhook"
 )
 
 type VerifEnt struct {
@@ -58,6 +61,8 @@ type VerifOp struct {
 	Inverse  bool          `json:"inverse,omitempty"`
 	Starts   []string      `json:"starts,omitempty"`
 	At       *VerifTimeRef `json:"at,omitempty"`
+	Second   []VerifEnt    `json:"second,omitempty"`   // race: the second writer's batch (the first one's is Ents)
+	PauseAt  string        `json:"pause_at,omitempty"` // race: hook point at which the first writer is held
 }
 
 type VerifCase struct {
@@ -424,6 +429,103 @@ func verifDoOp(h *verifHub, op VerifOp, idx int, times map[int]int64, tokens map
 			}
 			froms = res.Cont
 		}
+	case "race":
+		// two writers on one dataset under a forced schedule: writer 1 is held at a hook point, writer 2 is started and
+		// given time to finish or to block on the dataset lock, an optional reader reads, then writer 1 is released.
+		ds := h.dsm.GetDataset(op.Ds)
+		if ds == nil {
+			oo.Err = "no dataset"
+			return
+		}
+		e1, err := verifParse(store, op.Ents)
+		if err != nil {
+			oo.Err = "parse: " + err.Error()
+			return
+		}
+		e2, err := verifParse(store, op.Second)
+		if err != nil {
+			oo.Err = "parse: " + err.Error()
+			return
+		}
+		for _, e := range e1 {
+			oo.Lens = append(oo.Lens, verifLen(e))
+		}
+		for _, e := range e2 {
+			oo.Lens = append(oo.Lens, verifLen(e))
+		}
+		held := make(chan struct{})
+		release := make(chan struct{})
+		var once sync.Once
+		var w2acquired int32
+		var phase int32 // 0: writer 1 running alone, 1: writer 1 held, writer 2 running
+		verifhook.SetHandler(func(name, arg string) {
+			if arg != op.Ds {
+				return
+			}
+			if atomic.LoadInt32(&phase) == 0 && name == op.PauseAt {
+				fired := false
+				once.Do(func() { fired = true })
+				if fired {
+					atomic.StoreInt32(&phase, 1)
+					close(held)
+					<-release
+				}
+				return
+			}
+			if atomic.LoadInt32(&phase) == 1 && name == "lock.acquired" {
+				atomic.StoreInt32(&w2acquired, 1)
+			}
+		})
+		defer verifhook.SetHandler(nil)
+		done1 := make(chan error, 1)
+		done2 := make(chan error, 1)
+		go func() { done1 <- ds.StoreEntities(e1) }()
+		select {
+		case <-held:
+		case err := <-done1:
+			oo.Err = fmt.Sprintf("writer 1 never reached %s (err=%v)", op.PauseAt, err)
+			return
+		case <-time.After(10 * time.Second):
+			oo.Err = "writer 1 hang"
+			return
+		}
+		go func() { done2 <- ds.StoreEntities(e2) }()
+		w2done := false
+		select {
+		case err := <-done2:
+			w2done = true
+			if err != nil {
+				oo.Err = "writer 2: " + err.Error()
+			}
+		case <-time.After(300 * time.Millisecond):
+		}
+		// the reader in the middle
+		oo.Ents = []VerifEnt{}
+		since := tokens[op.Reader+"@"+op.Ds]
+		next, rerr := ds.ProcessChanges(uint64(since), op.Limit, false, func(e *Entity) {
+			oo.Ents = append(oo.Ents, verifOutEnt(e))
+		})
+		if rerr == nil {
+			oo.Next = int64(next)
+			tokens[op.Reader+"@"+op.Ds] = int64(next)
+		}
+		oo.Found = w2done // writer 2 completed while writer 1 was held
+		close(release)
+		if err := <-done1; err != nil && oo.Err == "" {
+			oo.Err = "writer 1: " + err.Error()
+		}
+		if !w2done {
+			select {
+			case err := <-done2:
+				if err != nil && oo.Err == "" {
+					oo.Err = "writer 2: " + err.Error()
+				}
+			case <-time.After(20 * time.Second):
+				oo.Err = "writer 2 hang"
+			}
+		}
+		verifStamp(idx, times, verifLastTime(ds), times[1<<30])
+		times[1<<30] = times[idx]
 	case "rawkeys":
 		oo.Raw = map[string][]string{}
 		_ = store.database.View(func(txn *badger.Txn) error {
@@ -444,9 +546,22 @@ func verifDoOp(h *verifHub, op VerifOp, idx int, times map[int]int64, tokens map
 			return nil
 		})
 	default:
+		if f, ok := VerifExtOps[op.Op]; ok {
+			return f(store, h.dsm, op, tokens)
+		}
 		oo.Err = "unknown op " + op.Op
 	}
 	return
+}
+
+// VerifExtOps lets the driver's main package add operations that need packages which import package server
+var VerifExtOps = map[string]func(store *Store, dsm *DsManager, op VerifOp, tokens map[string]int64) VerifOpObs{}
+
+// VerifOutEnt converts a stored entity JSON into the observation form
+func VerifOutEntJSON(jsonData []byte) VerifEnt {
+	e := &Entity{}
+	_ = json.Unmarshal(jsonData, e)
+	return verifOutEnt(e)
 }
 
 // GetChangesWatermark2: number of change-log entries (robust on an empty dataset, unlike GetChangesWatermark)
